@@ -29,6 +29,7 @@ func main() {
 	repl.Main(rep, args, map[string]bool{"C01": true}, stages)
 	// several databases on one cluster + the replica-side database filter (MultiDB.tla)
 	multidb.Stage(rep, args)
+	commitDuringJoin(rep)
 	if only == "" {
 		t3.Stage(rep, args, map[string]bool{"C01": true})
 	}
